@@ -1,9 +1,8 @@
 #!/bin/sh
 # MANIFEST.setup_cmd: build the Lean package (model, theorems, driver) and the hooked laze, offline.
 set -e
-python3 /verif/translators/containers.py
-[ -f /verif/translators/panics.py ] && python3 /verif/translators/panics.py
-python3 /verif/translators/steporder.py
-cd /verif/lean
+V=$(cd "$(dirname "$0")" && pwd)
+for t in "$V"/translators/*.py; do python3 "$t"; done
+cd "$V/lean"
 lake build LazeModel lazemodel $(ls LazeModel/Theorems/*.lean | sed 's#/#.#g; s#\.lean$##')
-/verif/build_laze.sh
+"$V/build_laze.sh"
